@@ -88,10 +88,12 @@ def _full_tensor(rng):
     return [[d[0], xy, xz], [xy, d[1], yz], [xz, yz, d[2]]]
 
 
-def _scene(rng, T, full=False):
+def _scene(rng, T, full=False, plane=None):
+    """plane = (propagation axis of the base scene, polarisation mode, direction) or None (random, source optional).
+    Polarisation modes: "p1" / "p2" = E along axis+1 / axis+2, "oblique" = both transverse components (random angle)."""
     shape = [rng.randint(5, 7) for _ in range(3)]
     bounds = {}
-    plane_axis = rng.randrange(3)
+    plane_axis = rng.randrange(3) if plane is None else plane[0]
     for a, ax in enumerate("xyz"):
         r = rng.random()
         if a == plane_axis or r < 0.3:
@@ -129,10 +131,15 @@ def _scene(rng, T, full=False):
         epos = [min(max((l + h) // 2, 2), n - 3) for l, h, n in zip(lo, hi, shape)]
     sources = [{"kind": "dipole", "pos": epos, "pol": rng.randrange(3), "wl": 400e-9},
                {"kind": "mdipole", "pos": inner(), "pol": rng.randrange(3), "wl": 500e-9, "amp": 0.7}]
-    if rng.random() < 0.7:
+    if plane is not None or rng.random() < 0.7:
+        mode, direction = (rng.choice(["p1", "p2", "oblique"]), rng.choice(["+", "-"])) if plane is None else plane[1:]
         epol = [0.0, 0.0, 0.0]
-        epol[(plane_axis + rng.choice([1, 2])) % 3] = 1.0
-        sources.append({"kind": "plane", "axis": plane_axis, "pos": 3, "dir": rng.choice(["+", "-"]), "epol": epol, "wl": 450e-9})
+        if mode == "oblique":   # both transverse E (hence both transverse H) components in every orientation
+            th = math.radians(rng.choice([1, -1]) * rng.uniform(20.0, 70.0))
+            epol[(plane_axis + 1) % 3], epol[(plane_axis + 2) % 3] = round(math.cos(th), 6), round(math.sin(th), 6)
+        else:
+            epol[(plane_axis + (1 if mode == "p1" else 2)) % 3] = 1.0
+        sources.append({"kind": "plane", "axis": plane_axis, "pos": 3, "dir": direction, "epol": epol, "wl": 450e-9})
     dlo = [rng.randrange(0, n - 2) for n in shape]
     dhi = [rng.randrange(l + 1, n + 1) for l, n in zip(dlo, shape)]
     pa = rng.randrange(3)
@@ -147,9 +154,16 @@ def _scene(rng, T, full=False):
 def gen_cases(ctx):
     rng = random.Random(ctx.seed * 104729 + 8)
     ctx.exhaustive = False
+    # Every scene has a plane source.  Over each block of four scenes the base propagation axis cycles through x, y, z,
+    # the polarisation is oblique (both transverse components) twice and along axis+1 / axis+2 once each, and the
+    # direction alternates (the phase of all three cycles moves with the seed): since the three orientations of a scene
+    # turn (axis, polarisation) into every cyclic image, every row of the per-component Yee offset / timing tables
+    # (E_p and H_p for x-, y- and z-propagation, both directions over the seeds) is exercised in some orientation.
+    modes = ["oblique", "p2", "oblique", "p1"]
     for n in range(4 if ctx.quick else 30):
         full = n % 2 == 1     # every second scene carries a full symmetric 3x3 permittivity tensor
-        yield {"id": f"scene{n}-{'full3x3' if full else 'diag'}", "scene": _scene(rng, 8, full)}
+        plane = ((n + ctx.seed) % 3, modes[(n + ctx.seed) % 4], "+" if (n + ctx.seed // 2) % 2 == 0 else "-")
+        yield {"id": f"scene{n}-{'full3x3' if full else 'diag'}-{'xyz'[plane[0]]}{plane[2]}{plane[1]}", "scene": _scene(rng, 8, full, plane)}
 
 
 def observe(case):
